@@ -1631,9 +1631,11 @@ def ppid_map():
         try:
             with open_binary(f"{procfs_path}/{pid}/stat") as f:
                 data = f.read()
-        except (FileNotFoundError, ProcessLookupError):
+        except (FileNotFoundError, ProcessLookupError, PermissionError):
             # Note: we should be able to access /stat for all processes
-            # aka it's unlikely we'll bump into EPERM, which is good.
+            # aka it's unlikely we'll bump into EPERM (e.g. hidepid,
+            # LSMs); if we do, skip the process instead of letting a
+            # bare PermissionError escape from Process.children().
             pass
         else:
             rpar = data.rfind(b')')
